@@ -1,0 +1,230 @@
+//go:build verif
+
+package heap
+
+// Contracts for fvc (see /verif/DESIGN.md). Comment-only file.
+
+// Representation invariant of priorityQueue: queue and names index each other, every item knows its slot.
+//@ pure wf(pq *priorityQueue) bool =
+//@     pq != nil && pq.names != nil
+//@  && (forall k int :: 0 <= k && k < len(pq.queue) ==>
+//@         pq.queue[k] != nil && allocated(pq.queue[k]) && pq.queue[k].index == k && (pq.queue[k].name in pq.names) && pq.names[pq.queue[k].name] == k)
+//@  && (forall s string :: (s in pq.names) ==>
+//@         0 <= pq.names[s] && pq.names[s] < len(pq.queue) && pq.queue[pq.names[s]].name == s)
+
+// Abstract view: the set of names and the priority of each.
+//@ pure has(pq *priorityQueue, s string) bool = s in pq.names
+//@ pure prio(pq *priorityQueue, s string) int = pq.queue[pq.names[s]].priority
+
+// What the heap order gives its users: the root is a minimum.
+//@ pure rootmin(pq *priorityQueue) bool =
+//@     forall k int :: 0 <= k && k < len(pq.queue) ==> pq.queue[0].priority <= pq.queue[k].priority
+
+//@ func NewItem
+//@   fresh result
+//@   ensures [C01] result != nil && result.name == name && result.priority == priority
+
+//@ func Item.Name
+//@   requires i != nil
+//@   ensures [C01] result == i.name
+
+//@ func Item.Priority
+//@   requires i != nil
+//@   ensures [C01] result == i.priority
+
+//@ func priorityQueue.Len
+//@   requires pq != nil
+//@   ensures [C01] result == len(pq.queue)
+
+//@ func priorityQueue.Less
+//@   tags C01
+//@   safety nil, index
+//@   requires wf(pq) && 0 <= i && i < len(pq.queue) && 0 <= j && j < len(pq.queue)
+//@   ensures [C01] result == (pq.queue[i].priority < pq.queue[j].priority)
+
+//@ func priorityQueue.Swap
+//@   tags C01
+//@   safety nil, index, nilmap-write
+//@   requires wf(pq) && 0 <= i && i < len(pq.queue) && 0 <= j && j < len(pq.queue)
+//@   modifies elems(pq.queue), mapof(pq.names), heap(Item)
+//@   ensures [C01] keeps-wf: wf(pq)
+//@   ensures [C01] swapped: pq.queue[i] == old(pq.queue[j]) && pq.queue[j] == old(pq.queue[i])
+//@   ensures [C01] others-untouched: forall k int :: 0 <= k && k < len(pq.queue) && k != i && k != j ==> pq.queue[k] == old(pq.queue[k])
+//@   ensures [C01] same-queue: pq.queue == old(pq.queue) && pq.names == old(pq.names)
+//@   ensures [C01] items-keep-identity: forall p *Item :: p.name == old(p.name) && p.priority == old(p.priority)
+//@   ensures [C01] view-unchanged: forall s string :: has(pq, s) == old(has(pq, s)) && (has(pq, s) ==> prio(pq, s) == old(prio(pq, s)))
+
+//@ func priorityQueue.Push
+//@   tags C01
+//@   safety nil, assert-type, nilmap-write
+//@   requires wf(pq) && typeis(x, *Item) && unbox(x, *Item) != nil
+//@   requires fresh-name: !has(pq, unbox(x, *Item).name)
+//@   requires not-queued: forall k int :: 0 <= k && k < len(pq.queue) ==> pq.queue[k] != unbox(x, *Item)
+//@   ensures [C01] keeps-wf: wf(pq)
+//@   ensures [C01] appended: len(pq.queue) == old(len(pq.queue)) + 1 && pq.queue[len(pq.queue)-1] == unbox(x, *Item)
+//@   ensures [C01] prefix-untouched: forall k int :: 0 <= k && k < old(len(pq.queue)) ==> pq.queue[k] == old(pq.queue[k])
+//@   ensures [C01] view-extended: forall s string :: has(pq, s) == (old(has(pq, s)) || s == unbox(x, *Item).name)
+
+//@ func priorityQueue.Pop
+//@   tags C01
+//@   safety nil, index, nilmap-write
+//@   requires wf(pq) && len(pq.queue) > 0
+//@   ensures [C01] keeps-wf: wf(pq)
+//@   ensures [C01] removed-last: typeis(result, *Item) && unbox(result, *Item) == old(pq.queue[len(pq.queue)-1])
+//@   ensures [C01] shortened: len(pq.queue) == old(len(pq.queue)) - 1
+//@   ensures [C01] prefix-untouched: forall k int :: 0 <= k && k < len(pq.queue) ==> pq.queue[k] == old(pq.queue[k])
+//@   ensures [C01] view-shrunk: forall s string :: has(pq, s) == (old(has(pq, s)) && s != old(pq.queue[len(pq.queue)-1].name))
+
+//@ func priorityQueue.search
+//@   tags C01
+//@   safety nil, index
+//@   requires wf(pq)
+//@   ensures [C01] result1 == has(pq, name)
+//@   ensures [C01] result1 ==> result0 != nil && result0.name == name && result0 == pq.queue[pq.names[name]] && 0 <= result0.index && result0.index < len(pq.queue) && pq.queue[result0.index] == result0
+//@   ensures [C01] !result1 ==> result0 == nil
+
+// ---- container/heap (standard library): ASSUMED contracts, specialised to *priorityQueue ----------------
+// Given a heap.Interface whose methods meet the contracts above (proved), the algorithms re-establish the
+// heap order (of which users need: the root is a minimum), keep the representation invariant, and change
+// the set of items exactly by the pushed / removed element.
+
+//@ pure pqOf(h heap.Interface) *priorityQueue = unbox(h, *priorityQueue)
+
+//@ extern func container/heap.Init
+//@   params h
+//@   requires typeis(h, *priorityQueue) && wf(pqOf(h))
+//@   modifies elems(pqOf(h).queue), mapof(pqOf(h).names), heap(Item)
+//@   ensures wf(pqOf(h)) && rootmin(pqOf(h))
+//@   ensures pqOf(h).queue == old(pqOf(h).queue) && pqOf(h).names == old(pqOf(h).names)
+//@   ensures forall p *Item :: p.name == old(p.name) && p.priority == old(p.priority)
+//@   ensures forall s string :: has(pqOf(h), s) == old(has(pqOf(h), s)) && (has(pqOf(h), s) ==> prio(pqOf(h), s) == old(prio(pqOf(h), s)))
+
+//@ extern func container/heap.Fix
+//@   params h, i
+//@   requires typeis(h, *priorityQueue) && wf(pqOf(h)) && 0 <= i && i < len(pqOf(h).queue)
+//@   modifies elems(pqOf(h).queue), mapof(pqOf(h).names), heap(Item)
+//@   ensures wf(pqOf(h)) && rootmin(pqOf(h))
+//@   ensures pqOf(h).queue == old(pqOf(h).queue) && pqOf(h).names == old(pqOf(h).names)
+//@   ensures forall p *Item :: p.name == old(p.name) && p.priority == old(p.priority)
+//@   ensures forall s string :: has(pqOf(h), s) == old(has(pqOf(h), s)) && (has(pqOf(h), s) ==> prio(pqOf(h), s) == old(prio(pqOf(h), s)))
+
+//@ extern func container/heap.Push
+//@   params h, x
+//@   requires typeis(h, *priorityQueue) && wf(pqOf(h)) && rootmin(pqOf(h))
+//@   requires typeis(x, *Item) && unbox(x, *Item) != nil && !has(pqOf(h), unbox(x, *Item).name)
+//@   requires forall k int :: 0 <= k && k < len(pqOf(h).queue) ==> pqOf(h).queue[k] != unbox(x, *Item)
+//@   modifies *pqOf(h), arrays(*Item), mapof(pqOf(h).names), heap(Item)
+//@   ensures wf(pqOf(h)) && rootmin(pqOf(h)) && pqOf(h).names == old(pqOf(h).names)
+//@   ensures forall p *Item :: p.name == old(p.name) && p.priority == old(p.priority)
+//@   ensures forall s string :: has(pqOf(h), s) == (old(has(pqOf(h), s)) || s == unbox(x, *Item).name)
+//@   ensures forall s string :: old(has(pqOf(h), s)) ==> prio(pqOf(h), s) == old(prio(pqOf(h), s))
+//@   ensures prio(pqOf(h), unbox(x, *Item).name) == unbox(x, *Item).priority
+
+//@ extern func container/heap.Pop
+//@   params h
+//@   requires typeis(h, *priorityQueue) && wf(pqOf(h)) && rootmin(pqOf(h)) && len(pqOf(h).queue) > 0
+//@   modifies *pqOf(h), arrays(*Item), mapof(pqOf(h).names), heap(Item)
+//@   ensures typeis(result, *Item) && unbox(result, *Item) == old(pqOf(h).queue[0])
+//@   ensures wf(pqOf(h)) && rootmin(pqOf(h)) && pqOf(h).names == old(pqOf(h).names)
+//@   ensures forall p *Item :: p.name == old(p.name) && p.priority == old(p.priority)
+//@   ensures forall s string :: has(pqOf(h), s) == (old(has(pqOf(h), s)) && s != old(pqOf(h).queue[0].name))
+//@   ensures forall s string :: has(pqOf(h), s) ==> prio(pqOf(h), s) == old(prio(pqOf(h), s))
+
+//@ extern func container/heap.Remove
+//@   params h, i
+//@   requires typeis(h, *priorityQueue) && wf(pqOf(h)) && rootmin(pqOf(h)) && 0 <= i && i < len(pqOf(h).queue)
+//@   modifies *pqOf(h), arrays(*Item), mapof(pqOf(h).names), heap(Item)
+//@   ensures typeis(result, *Item) && unbox(result, *Item) == old(pqOf(h).queue[i])
+//@   ensures wf(pqOf(h)) && rootmin(pqOf(h)) && pqOf(h).names == old(pqOf(h).names)
+//@   ensures forall p *Item :: p.name == old(p.name) && p.priority == old(p.priority)
+//@   ensures forall s string :: has(pqOf(h), s) == (old(has(pqOf(h), s)) && s != old(pqOf(h).queue[i].name))
+//@   ensures forall s string :: has(pqOf(h), s) ==> prio(pqOf(h), s) == old(prio(pqOf(h), s))
+
+// ---- Heap: the public data structure -------------------------------------------------------------------
+
+//@ pure hwf(h *Heap) bool = h != nil && wf(h.pq) && rootmin(h.pq)
+//@ pure hhas(h *Heap, s string) bool = has(h.pq, s)
+//@ pure hprio(h *Heap, s string) int = prio(h.pq, s)
+
+//@ func newPriorityQueue
+//@   tags C01
+//@   safety nil, index, nilmap-write, alloc
+//@   requires forall k int :: 0 <= k && k < len(items) ==> items[k] != nil && allocated(items[k])
+//@   requires distinct-names: forall a int, b int :: 0 <= a && a < b && b < len(items) ==> items[a].name != items[b].name
+//@   loop 1 invariant -1 <= rangeindex && rangeindex < len(items) && len(queue) == len(items) && names != nil && fresh(names)
+//@   loop 1 invariant forall k int :: 0 <= k && k < len(items) ==> items[k] == old(items[k])
+//@   loop 1 invariant forall p *Item :: !fresh(p) ==> *p == old(*p)
+//@   loop 1 invariant forall k int :: 0 <= k && k <= rangeindex ==>
+//@        queue[k] != nil && fresh(queue[k]) && allocated(queue[k]) && queue[k].index == k && queue[k].name == items[k].name && queue[k].priority == items[k].priority
+//@   loop 1 invariant forall k int :: 0 <= k && k <= rangeindex ==> (items[k].name in names) && names[items[k].name] == k
+//@   loop 1 invariant forall s string :: (s in names) ==> 0 <= names[s] && names[s] <= rangeindex && items[names[s]].name == s
+//@   ensures [C01] wf(result) && rootmin(result) && len(result.queue) == len(items)
+//@   ensures [C01] view-complete: forall k int :: 0 <= k && k < len(items) ==> has(result, items[k].name) && prio(result, items[k].name) == items[k].priority
+//@   ensures [C01] view-sound: forall s string :: has(result, s) ==> (exists k int :: 0 <= k && k < len(items) && items[k].name == s)
+//@   ensures [C01] input-untouched: forall p *Item :: !fresh(p) ==> p.name == old(p.name) && p.priority == old(p.priority)
+
+//@ func New
+//@   tags C01
+//@   requires forall k int :: 0 <= k && k < len(items) ==> items[k] != nil && allocated(items[k])
+//@   requires distinct-names: forall a int, b int :: 0 <= a && a < b && b < len(items) ==> items[a].name != items[b].name
+//@   ensures [C01] hwf(result)
+//@   ensures [C01] view-complete: forall k int :: 0 <= k && k < len(items) ==> hhas(result, items[k].name) && hprio(result, items[k].name) == items[k].priority
+//@   ensures [C01] view-sound: forall s string :: hhas(result, s) ==> (exists k int :: 0 <= k && k < len(items) && items[k].name == s)
+
+//@ func Heap.Len
+//@   requires h != nil && h.pq != nil
+//@   ensures [C01] result == len(h.pq.queue)
+
+//@ func Heap.Peek
+//@   tags C01
+//@   safety nil, index
+//@   requires hwf(h)
+//@   ensures [C01] result1 == (len(h.pq.queue) > 0)
+//@   ensures [C01] peek-is-min: result1 ==> result0 != nil && hhas(h, result0.name) && hprio(h, result0.name) == result0.priority
+//@                       && (forall s string :: hhas(h, s) ==> result0.priority <= hprio(h, s))
+//@   ensures [C01] !result1 ==> result0 == nil && (forall s string :: !hhas(h, s))
+
+//@ func Heap.Search
+//@   tags C01
+//@   safety nil, index
+//@   requires hwf(h)
+//@   ensures [C01] result1 == hhas(h, name)
+//@   ensures [C01] result1 ==> result0 == hprio(h, name)
+
+//@ func Heap.Push
+//@   tags C01
+//@   requires hwf(h) && !hhas(h, name)
+//@   modifies *h.pq, arrays(*Item), mapof(h.pq.names), heap(Item)
+//@   ensures [C01] hwf(h)
+//@   ensures [C01] view: forall s string :: hhas(h, s) == (old(hhas(h, s)) || s == name)
+//@   ensures [C01] others-keep-priority: forall s string :: old(hhas(h, s)) ==> hprio(h, s) == old(hprio(h, s))
+//@   ensures [C01] new-priority: hprio(h, name) == priority
+
+//@ func Heap.Pop
+//@   tags C01
+//@   safety assert-type
+//@   requires hwf(h) && len(h.pq.queue) > 0
+//@   modifies *h.pq, arrays(*Item), mapof(h.pq.names), heap(Item)
+//@   ensures [C01] hwf(h)
+//@   ensures [C01] pops-min: result != nil && old(hhas(h, result.name)) && result.priority == old(hprio(h, result.name))
+//@                       && (forall s string :: old(hhas(h, s)) ==> result.priority <= old(hprio(h, s)))
+//@   ensures [C01] view: forall s string :: hhas(h, s) == (old(hhas(h, s)) && s != result.name)
+//@   ensures [C01] others-keep-priority: forall s string :: hhas(h, s) ==> hprio(h, s) == old(hprio(h, s))
+
+//@ func Heap.Update
+//@   tags C01
+//@   requires hwf(h)
+//@   modifies elems(h.pq.queue), mapof(h.pq.names), heap(Item)
+//@   ensures [C01] result == old(hhas(h, name))
+//@   ensures [C01] hwf(h)
+//@   ensures [C01] view: forall s string :: hhas(h, s) == old(hhas(h, s))
+//@   ensures [C01] priorities: forall s string :: hhas(h, s) ==> hprio(h, s) == (s == name ? newPriority : old(hprio(h, s)))
+
+//@ func Heap.Delete
+//@   tags C01
+//@   requires hwf(h)
+//@   modifies *h.pq, arrays(*Item), mapof(h.pq.names), heap(Item)
+//@   ensures [C01] result == old(hhas(h, name))
+//@   ensures [C01] hwf(h)
+//@   ensures [C01] view: forall s string :: hhas(h, s) == (old(hhas(h, s)) && s != name)
+//@   ensures [C01] others-keep-priority: forall s string :: hhas(h, s) ==> hprio(h, s) == old(hprio(h, s))
